@@ -248,3 +248,12 @@ def run(prog: Program, rep: Report, tier: str):
     c18.r18_3(prog, rep, rule="R13.3")
     r13_4(prog, rep)
     r13_5(prog, rep)
+    # Optional[X] in either spelling: None is already valid and must be honoured before str/bytes/bool members (shared with R08.6)
+    from ..report import Report as _R, absorb
+    from . import c08
+
+    rep.rule("R13.8", "an optional annotation is recognised in both spellings and wherever None sits (shared with R08.6)", floor=2)
+    sub = _R("C13", tier)
+    sub.rule("R08.6", "", 0)
+    c08.r08_6(prog, sub)
+    absorb(rep, sub, {"R08.6": "R13.8"})
